@@ -110,11 +110,11 @@ Section Expr.
 
   Lemma cexpr_valid sc :
     forall e hint t,
-      type_of tys sc e = Some t ->
+      type_of tys sc e = Some t -> pure_expr e = true ->
       hint_ok tys hint e = true -> float_mod_free tys e = true ->
       exists code, cexpr tys hint e = Some (code, t) /\ vexpr t code.
   Proof.
-    induction e; intros hint t0 Ht Hh Hm; simpl in Ht, Hh, Hm.
+    induction e; intros hint t0 Ht Hp Hh Hm; simpl in Ht, Hp, Hh, Hm.
     - destruct ((0 <=? z) && (z <=? imax t)) eqn:R; [|discriminate]. injection Ht as <-.
       apply andb_true_iff in R. destruct R as [R0 R1]. apply Z.leb_le in R1.
       assert (Eh : eff_ty hint (TI t) = TI t).
@@ -130,13 +130,14 @@ Section Expr.
     - destruct (type_of_var_lt _ _ _ _ Ht) as [Hi Hn]. simpl. rewrite Hn.
       eexists. split; [reflexivity|]. intros st p.
       rewrite val_l_cons, (val_lget lts rt i (vt_of t0)) by (apply map_nth_error; assumption). reflexivity.
-    - destruct (IHe hint t0 Ht Hh Hm) as (c & Ec & Vc). exists c. split; assumption.
-    - destruct (IHe hint t0 Ht Hh Hm) as (c & Ec & Vc). simpl. rewrite Ec.
+    - discriminate.
+    - destruct (IHe hint t0 Ht Hp Hh Hm) as (c & Ec & Vc). exists c. split; assumption.
+    - destruct (IHe hint t0 Ht Hp Hh Hm) as (c & Ec & Vc). simpl. rewrite Ec.
       destruct t0 as [it|f]; eexists; (split; [reflexivity|]); intros st p; rewrite val_l_app, Vc.
       + simpl vt_of. vs val_const. vs val_ibin. reflexivity.
       + simpl vt_of. rewrite val_l_cons, val_fneg. reflexivity.
     - destruct (type_of tys sc e) as [[[]|]|] eqn:Te; try discriminate. injection Ht as <-.
-      destruct (IHe hint _ eq_refl Hh Hm) as (c & Ec & Vc).
+      destruct (IHe hint _ eq_refl Hp Hh Hm) as (c & Ec & Vc).
       simpl. rewrite Ec. eexists. split; [reflexivity|]. intros st p.
       rewrite val_l_app, Vc. simpl vt_of. rewrite val_l_cons, val_eqz. reflexivity.
     - destruct (type_of tys sc e1) as [ta|] eqn:Ta; [|discriminate].
@@ -219,26 +220,26 @@ Section Stmt.
     forall p, exists p', val_l code ([], p) = Some ([], p') /\ (d = true -> p' = true).
 
   Lemma cexpr_to_valid sc e t hint :
-    expr_ok tys sc e t = true -> sflags_expr tys hint e = [] ->
+    expr_ok tys sc e t = true -> sflags_expr tys hint e = [] -> pure_expr e = true ->
     exists c, cexpr_to tys hint e t = Some c /\ vexpr tys rt t c.
   Proof.
-    intros He Hs. unfold expr_ok in He. apply andb_true_iff in He. destruct He as [_ He].
+    intros He Hs Hp. unfold expr_ok in He. apply andb_true_iff in He. destruct He as [_ He].
     destruct (type_of tys sc e) as [t'|] eqn:Te; [|discriminate]. apply ty_eqb_eq in He. subst t'.
     destruct (sflags_expr_nil _ _ _ Hs) as (U & H & M).
-    destruct (cexpr_valid tys rt sc e hint t Te H M) as (c & Ec & Vc).
+    destruct (cexpr_valid tys rt sc e hint t Te Hp H M) as (c & Ec & Vc).
     unfold cexpr_to. rewrite (reparse_id e U), Ec, ty_eqb_refl. eauto.
   Qed.
 
   Lemma ccond_valid sc c :
-    cond_ok tys sc c = true -> sflags_cond tys c = [] ->
+    cond_ok tys sc c = true -> sflags_cond tys c = [] -> pure_expr c = true ->
     exists cc, ccond tys c = Some cc /\
       forall st p, val_l cc (st, p) = Some (VTI W32 :: st, p).
   Proof.
-    intros He Hs. unfold cond_ok in He. apply andb_true_iff in He. destruct He as [_ He].
+    intros He Hs Hp. unfold cond_ok in He. apply andb_true_iff in He. destruct He as [_ He].
     destruct (type_of tys sc c) as [[it|]|] eqn:Te; try discriminate.
     unfold sflags_cond in Hs.
     destruct (sflags_expr_nil _ _ _ Hs) as (U & H & M).
-    destruct (cexpr_valid tys rt sc c None (TI it) Te H M) as (cc & Ec & Vc).
+    destruct (cexpr_valid tys rt sc c None (TI it) Te Hp H M) as (cc & Ec & Vc).
     unfold ccond. rewrite (reparse_id c U), Ec. eexists. split; [reflexivity|].
     intros st p. va Vc. unfold truthiness. simpl vt_of. destruct (regw it).
     - apply val_l_nil.
@@ -280,32 +281,32 @@ Section Stmt.
   Proof.
     apply stmt_block_els_ind.
     - (* declaration *)
-      intros i t e sc sc' Hc Hs _. unf_in Hc; unf_in Hs.
+      intros i t e sc sc' Hc Hs Hp. unf_in Hc; unf_in Hs. simpl in Hp.
       destruct (Nat.leb np i && negb (existsb (Nat.eqb i) sc) &&
                 match nth_error tys i with Some t' => ty_eqb t t' | None => false end &&
                 expr_ok tys sc e t) eqn:C; [|discriminate]. injection Hc as <-.
       apply andb_true_iff in C. destruct C as [C He]. apply andb_true_iff in C. destruct C as [C Ht].
       destruct (nth_error tys i) as [t'|] eqn:Hn; [|discriminate]. apply ty_eqb_eq in Ht. subst t'.
-      destruct (cexpr_to_valid sc e t (Some t) He Hs) as (c & Ec & Vc).
+      destruct (cexpr_to_valid sc e t (Some t) He Hs Hp) as (c & Ec & Vc).
       eexists _, _. split; [intros dp lp; unf; rewrite Hn, Ec; reflexivity|].
       intros p. exists p. split; [|discriminate]. va Vc.
       vs (val_lset lts rt i (vt_of t)); [reflexivity|apply map_nth_error; assumption].
     - (* assignment *)
-      intros i e sc sc' Hc Hs _. unf_in Hc; unf_in Hs.
+      intros i e sc sc' Hc Hs Hp. unf_in Hc; unf_in Hs. simpl in Hp.
       destruct (var_ty tys sc i) as [t|] eqn:Hv; [|discriminate].
       destruct (expr_ok tys sc e t) eqn:He; [|discriminate]. injection Hc as <-.
       destruct (var_ty_spec _ _ _ _ Hv) as [Hi Hn]. rewrite Hn in Hs.
-      destruct (cexpr_to_valid sc e t (Some t) He Hs) as (c & Ec & Vc).
+      destruct (cexpr_to_valid sc e t (Some t) He Hs Hp) as (c & Ec & Vc).
       eexists _, _. split; [intros dp lp; unf; rewrite Hn, Ec; reflexivity|].
       intros p. exists p. split; [|discriminate]. va Vc.
       vs (val_lset lts rt i (vt_of t)); [reflexivity|apply map_nth_error; assumption].
     - (* compound assignment *)
-      intros i op e sc sc' Hc Hs _. unf_in Hc; unf_in Hs.
+      intros i op e sc sc' Hc Hs Hp. unf_in Hc; unf_in Hs. simpl in Hp.
       destruct (var_ty tys sc i) as [t|] eqn:Hv; [|discriminate].
       destruct (expr_ok tys sc e t) eqn:He; [|discriminate]. injection Hc as <-.
       destruct (var_ty_spec _ _ _ _ Hv) as [Hi Hn]. rewrite Hn in Hs.
       apply app_nil_inv in Hs. destruct Hs as [Hs Hfm]. apply flag_nil in Hfm.
-      destruct (cexpr_to_valid sc e t (Some t) He Hs) as (c & Ec & Vc).
+      destruct (cexpr_to_valid sc e t (Some t) He Hs Hp) as (c & Ec & Vc).
       assert (Ho : exists o, arith_op op t = Some o).
       { destruct t; [simpl; eauto|]. destruct op; simpl; eauto. discriminate. }
       destruct Ho as (o & Eo).
@@ -321,11 +322,12 @@ Section Stmt.
     - (* if *)
       intros c th Hth el Hel sc sc' Hc Hs Hlf. unf_in Hc; unf_in Hs. simpl in Hlf.
       apply andb_true_iff in Hlf. destruct Hlf as [Lth Lel].
+      apply andb_true_iff in Lth. destruct Lth as [Pc Lth].
       destruct (cond_ok tys sc c && check_block tys np ret sc th && check_els tys np ret sc el) eqn:C;
         [|discriminate]. injection Hc as <-.
       apply andb_true_iff in C. destruct C as [C Cel]. apply andb_true_iff in C. destruct C as [Cc Cth].
       apply app_nil_inv in Hs. destruct Hs as [Hsc Hs]. apply app_nil_inv in Hs. destruct Hs as [Hsth Hsel].
-      destruct (ccond_valid sc c Cc Hsc) as (cc & Ecc & Vcc).
+      destruct (ccond_valid sc c Cc Hsc Pc) as (cc & Ecc & Vcc).
       destruct (Hth sc Cth Hsth Lth) as (cth & dth & Eth & Vth).
       destruct (Hel sc Cel Hsel Lel) as (cel & he & dall & Eel & Vel).
       destruct el as [|eb|c2 th2 el2].
@@ -345,9 +347,9 @@ Section Stmt.
           vs val_unreachable. reflexivity.
         * exists p. split; [|discriminate]. rewrite app_nil_r. exact V.
     - (* return *)
-      intros e sc sc' Hc Hs _. unf_in Hc; unf_in Hs.
+      intros e sc sc' Hc Hs Hp. unf_in Hc; unf_in Hs. simpl in Hp.
       destruct (expr_ok tys sc e ret) eqn:He; [|discriminate]. injection Hc as <-.
-      destruct (cexpr_to_valid sc e ret None He Hs) as (c & Ec & Vc).
+      destruct (cexpr_to_valid sc e ret None He Hs Hp) as (c & Ec & Vc).
       eexists _, _. split; [intros dp lp; unf; rewrite Ec; reflexivity|].
       intros p. exists true. split; [|reflexivity]. va Vc. vs val_return. reflexivity.
     - intros c b _ sc sc' _ _ H. discriminate.
@@ -355,6 +357,9 @@ Section Stmt.
     - intros i lim t start stop step b _ sc sc' _ _ H. discriminate.
     - intros sc sc' _ _ H. discriminate.
     - intros sc sc' _ _ H. discriminate.
+    - intros i t e sc sc' _ _ H. discriminate.
+    - intros i e sc sc' _ _ H. discriminate.
+    - intros i op e sc sc' _ _ H. discriminate.
     - (* empty block *)
       intros sc _ _ _. eexists _, _. split; [intros dp lp; reflexivity|].
       intros p. exists p. split; [reflexivity|discriminate].
@@ -381,9 +386,10 @@ Section Stmt.
     - (* else if *)
       intros c th Hth el Hel sc Hc Hs Hlf. unf_in Hc; unf_in Hs. simpl in Hlf.
       apply andb_true_iff in Hlf. destruct Hlf as [Lth Lel].
+      apply andb_true_iff in Lth. destruct Lth as [Pc Lth].
       apply andb_true_iff in Hc. destruct Hc as [C Cel]. apply andb_true_iff in C. destruct C as [Cc Cth].
       apply app_nil_inv in Hs. destruct Hs as [Hsc Hs]. apply app_nil_inv in Hs. destruct Hs as [Hsth Hsel].
-      destruct (ccond_valid sc c Cc Hsc) as (cc & Ecc & Vcc).
+      destruct (ccond_valid sc c Cc Hsc Pc) as (cc & Ecc & Vcc).
       destruct (Hth sc Cth Hsth Lth) as (cth & dth & Eth & Vth).
       destruct (Hel sc Cel Hsel Lel) as (cel & he & dall & Eel & Vel).
       eexists _, _, _. split; [intros dp lp; rewrite cels_elif, Ecc, Eth, Eel; reflexivity|]. intros p.
@@ -422,6 +428,9 @@ Section Stmt.
     - intros i lim t start stop step b _ dp lp code d _ H. discriminate.
     - intros dp lp code d _ H. discriminate.
     - intros dp lp code d _ H. discriminate.
+    - intros i t e dp lp code d _ H. discriminate.
+    - intros i e dp lp code d _ H. discriminate.
+    - intros i op e dp lp code d _ H. discriminate.
     - intros dp lp code d _ H. discriminate.
     - intros s Hs b Hb dp lp code d Hc Hr. rewrite cblock_cons in Hc. simpl in Hr.
       destruct (cstmt tys ret dp lp s) as [[cs ds]|] eqn:Ecs; [|discriminate]. destruct ds.
